@@ -56,7 +56,11 @@ def decode(data: bytes):
             parts.append(" ")
     sep = (" ", " ", "  ", "")[fdp.ConsumeIntInRange(0, 3)]
     text = sep.join(parts).replace(" \n", "\n")
-    return {"target": target, "platform": platform, "text": text}
+    case = {"target": target, "platform": platform, "text": text}
+    gb = fdp.ConsumeIntInRange(0, 4 * len(c20.GROUP_BY))
+    if gb < len(c20.GROUP_BY) and target in ("Acl", "acls", "aces"):
+        case["group_by"] = c20.GROUP_BY[gb]
+    return case
 
 
 def TestOneInput(data: bytes):
